@@ -6,6 +6,8 @@ import LettreVerif.Model.XText
 import LettreVerif.Proofs.C03
 import LettreVerif.Proofs.EnvelopeJson
 import LettreVerif.Model.TypedHdr
+import LettreVerif.Proofs.FoldSize
+import LettreVerif.Proofs.FoldSizePlain
 /-!
 # C19 — No input makes the library panic, overflow the stack, or run away
 
@@ -77,6 +79,23 @@ theorem envelope_json_linear (e : Transports.Envelope) :
     (Transports.envelopeJson e).length ≤
       2 * ((e.to.map List.length).sum + (e.from?.map List.length).getD 0) + 3 * e.to.length + 42 :=
   EnvelopeJson.envelopeJson_linear e
+
+/-- **The folding writer at most triples its input** (every token can cost one fold, CRLF, on top of its own octets): the
+    octets written plus the blanks pending after `FoldingEmailWriter::write_str(s)` exceed those before by at most `3 · |s|`. -/
+theorem folding_writer_linear (w : HeaderEnc.W) (s : Bytes) : (HeaderEnc.foldWrite w s).size ≤ w.size + 3 * s.length :=
+  HeaderEnc.size_foldWrite w s
+
+/-- … hence `HeaderValue::new` on a value all of whose words are printable ASCII (none of the shape `=?…?=`) writes at most
+    three times the value, whatever the header name (partial: values with words that need an encoded-word are not covered). -/
+theorem plain_header_value_linear (n : Nat) (value : Bytes)
+    (h : ∀ x ∈ HeaderEnc.splitInclusive [] value, HeaderEnc.PlainWord x) :
+    (HeaderEnc.encodeValue HeaderEnc.opts n value).length ≤ 3 * value.length :=
+  HeaderEnc.encodeValue_plain_linear n value h
+
+/-- … and what `ContentType::display` writes for a printable-ASCII media type is at most three times the text. -/
+theorem content_type_linear (raw : Bytes) (h : raw.all (HeaderEnc.allowedChar true) = true) :
+    (HeaderEnc.contentTypeValue raw).length ≤ 3 * raw.length :=
+  HeaderEnc.contentTypeValue_linear raw h
 
 /-- A MIME-Version value has at most seven octets. -/
 theorem mime_version_short (a b : Nat) : (TypedHdr.mimeDisplay a b).length ≤ 7 := by
